@@ -41,6 +41,14 @@ class Check:
         nontrivial=bool, extra counters ...)"""
         raise NotImplementedError
 
+    batch = 1      # > 1: cases travel to the workers in groups of this size and `run_batch` may execute a whole group at once
+
+    def run_batch(self, cases):
+        """Optional fast path: execute several cases in ONE run of the implementation.  -> list of results (one per case, same
+        order) when every case of the group demonstrably passed, or None - then each case is executed on its own by `run_case`
+        (so every reported violation is reproduced by a single-case program)."""
+        return None
+
     def finish(self, stats, tier):
         """Called in the parent after exploration; may add coverage keys / vacuity errors.
         Return a list of machinery-error strings (empty = fine)."""
@@ -62,6 +70,38 @@ def _worker(case):
         return case, r
     except Exception:
         return case, {"outcome": "harness-exception", "machinery": traceback.format_exc()}
+
+
+def _batch_worker(cases):
+    """-> list of (case, result).  A group whose one-run fast path did not pass is re-run case by case; if every case passes on
+    its own, the group itself is reported as a pseudo-case ("__batch__", cases) so that an order-dependent failure is not lost."""
+    try:
+        rs = _CHECK.run_batch(list(cases))
+    except Exception:
+        return [(cases[0], {"outcome": "harness-exception", "machinery": traceback.format_exc()})]
+    if rs is not None:
+        return list(zip(cases, rs))
+    out = [_worker(c) for c in cases]
+    if not any(r.get("viol") or r.get("outcome") in ("rejected", "harness-exception") for _, r in out):
+        out.append(_worker(("__batch__", tuple(cases))))
+    return out
+
+
+def _chunks(it, n):
+    buf = []
+    for x in it:
+        buf.append(x)
+        if len(buf) == n:
+            yield tuple(buf)
+            buf = []
+    if buf:
+        yield tuple(buf)
+
+
+def _flatten(it):
+    for group in it:
+        for pair in group:
+            yield pair
 
 
 def _init_worker():
@@ -148,7 +188,10 @@ def explore(check, tier, seed=0):
             lt0 = time.time()
             n = 0
             complete = True
-            it = pool.imap_unordered(_worker, cases, chunksize=check.chunksize)
+            if check.batch > 1:
+                it = _flatten(pool.imap_unordered(_batch_worker, _chunks(cases, check.batch), chunksize=max(1, check.chunksize // check.batch)))
+            else:
+                it = pool.imap_unordered(_worker, cases, chunksize=check.chunksize)
             for case, r in it:
                 n += 1
                 stats["evaluations"] += 1
